@@ -12,4 +12,50 @@ invariant (s RedactableString)
 
 invariant (s RedactableBytes)
   ensures frag(s, len(s))
+
+-- C07. The two compiled patterns, as the type checker folds them from the source, against their specification
+-- (start marker, any run of non-marker characters, end marker; the class of the two marker characters).
+regex ReStripSensitive [C07] language "\u2039[^\u2039\u203a]*\u203a" prefix-free nonempty
+regex ReStripMarkers [C07] language "[\u2039\u203a]" prefix-free nonempty
+
+-- What the regexp dependency is asked to do (its replacement semantics is assumed): which compiled pattern,
+-- on which input, with which replacement; the result is what the caller must return.
+ghostvar rxre u
+ghostvar rxsrc seq
+ghostvar rxsrcl int
+ghostvar rxrepl seq
+ghostvar rxrepll int
+ghostvar rxres seq
+ghostvar rxresl int
+
+assume func (re *regexp.Regexp) ReplaceAllString(src, repl string) (r string)
+  modifies rxre, rxsrc, rxsrcl, rxrepl, rxrepll, rxres, rxresl
+  ensures rxre == re && sameView(rxsrc, src) && rxsrcl == len(src) && sameView(rxrepl, repl) && rxrepll == len(repl) && sameView(rxres, r) && rxresl == len(r)
+
+assume func (re *regexp.Regexp) ReplaceAll(src, repl []byte) (r []byte)
+  modifies rxre, rxsrc, rxsrcl, rxrepl, rxrepll, rxres, rxresl, alloc
+  ensures rxre == re && sameView(rxsrc, src) && rxsrcl == len(src) && sameView(rxrepl, repl) && rxrepll == len(repl) && sameView(rxres, r) && rxresl == len(r)
+  ensures ref(r) == 0 || fresh(r)
+
+pred RedactedRepl() = rxrepll == 8 && isS(rxrepl, 0) && rxrepl[3] == 195 && rxrepl[4] == 151 && isE(rxrepl, 5)
+
+func (s RedactableString) StripMarkers() (r string)
+  modifies rxre, rxsrc, rxsrcl, rxrepl, rxrepll, rxres, rxresl
+  ensures [C07] rxre == ReStripMarkers && sameView(rxsrc, s) && rxsrcl == len(s) && rxrepll == 0 && sameView(rxres, r) && rxresl == len(r)
+
+func (s RedactableString) Redact() (r RedactableString)
+  modifies rxre, rxsrc, rxsrcl, rxrepl, rxrepll, rxres, rxresl
+  ensures [C07] rxre == ReStripSensitive && sameView(rxsrc, s) && rxsrcl == len(s) && RedactedRepl() && sameView(rxres, r) && rxresl == len(r)
+
+func (s RedactableBytes) StripMarkers() (r []byte)
+  modifies rxre, rxsrc, rxsrcl, rxrepl, rxrepll, rxres, rxresl, alloc
+  ensures [C07] rxre == ReStripMarkers && sameView(rxsrc, s) && rxsrcl == len(s) && rxrepll == 0 && sameView(rxres, r) && rxresl == len(r)
+
+func (s RedactableBytes) Redact() (r RedactableBytes)
+  modifies rxre, rxsrc, rxsrcl, rxrepl, rxrepll, rxres, rxresl, alloc
+  ensures [C07] rxre == ReStripSensitive && sameView(rxsrc, s) && rxsrcl == len(s) && RedactedRepl() && sameView(rxres, r) && rxresl == len(r)
+
+func EscapeMarkers(s []byte) (r []byte)
+  modifies rxre, rxsrc, rxsrcl, rxrepl, rxrepll, rxres, rxresl, alloc
+  ensures [C07,C10] rxre == ReStripMarkers && sameView(rxsrc, s) && rxsrcl == len(s) && rxrepll == 1 && rxrepl[0] == 63 && sameView(rxres, r) && rxresl == len(r)
 @*/
